@@ -1,5 +1,5 @@
 CONSTANTS Budget = 1 NFuns = 1 Sim = FALSE Mode = "rules" MaxParams = 0 Rounds = 6 Focus = {}
-  Masked = {"lambda_annot", "call_gen_rec", "call_rec_labels", "late_use", "shade_c"}
+  Masked = {"lambda_annot", "call_gen_rec", "call_rec_labels", "late_use"}
 SPECIFICATION Spec
 INVARIANTS Closed BindersTyped BindersScoped SigsWellFormed Derivable GenericsAcyclic EmitCase
 CHECK_DEADLOCK FALSE
